@@ -612,7 +612,7 @@ fn run(ctx: &mut Ctx) {
         });
     }
     derived(ctx, &arena);
-    let huge_pal = Arena::new(20);
+    let huge_pal = Arena::new(52);
     // equality of two typed views: decided by the declared bytes only, never by the alignment padding
     ctx.bound("ordering_and_hash", "the DST kinds that implement Ord and Hash (command line, loader name, module, SMBIOS, EFI map; the header crate's information request): on the same pairs of images as the equality part, ==, cmp (both directions), partial_cmp and hash must agree with one another and with the declared bytes");
     ctx.bound("equality", "the DST kinds that implement PartialEq (command line, loader name, module, memory map, SMBIOS, ELF sections, EFI map, framebuffer): for every declared size FIXED..=FIXED+3*ELEM+9 that the kind accepts, two images with equal declared bytes and different padding must compare equal, and two images that differ in the last declared byte must compare unequal");
@@ -763,8 +763,8 @@ fn run(ctx: &mut Ctx) {
         eq_kind!("Framebuffer", FramebufferTag);
     }
     // indexed framebuffer: stored colour counts whose byte length crosses 8-, 16- and 17-bit boundaries, on small tags
-    ctx.bound("palette_counts", "indexed framebuffer tags of size 34..=64 and 802, 65570 x bits-per-pixel byte in {marker, 0, 1, 2, 3, 4, 8, 15, 16, 24, 32, 255} x stored colour count in {0..=12, 16, 17, 85, 86, 255, 256, 257, 21845, 21846, 21847, 32768, 43690, 43691, 43692, 65534, 65535}: the palette is handed out only when 34 + 3 x count fits the declared size, at offset 34 with 3 x count bytes");
-    for size in (34usize..=64).chain([802, 65570]) {
+    ctx.bound("palette_counts", "indexed framebuffer tags of size 34..=64 and 802, 65570, 65572, 131107, 196639 (the last three hold exactly 21846, 43691 and 65535 colours) x bits-per-pixel byte in {marker, 0, 1, 2, 3, 4, 8, 15, 16, 24, 32, 255} x stored colour count in {0..=12, 16, 17, 85, 86, 255, 256, 257, 21845, 21846, 21847, 32768, 43690, 43691, 43692, 65534, 65535}: the palette is handed out only when 34 + 3 x count fits the declared size, at offset 34 with 3 x count bytes");
+    for size in (34usize..=64).chain([802, 65570, 65572, 131107, 196639]) {
         for count in (0u16..=12).chain([16, 17, 85, 86, 255, 256, 257, 21845, 21846, 21847, 32768, 43690, 43691, 43692, 65534, 65535]) {
           // the bits-per-pixel byte: a marker value, and the depths for which 2^bpp lies below / at / above the count
           for bpp in [-1i32, 0, 1, 2, 3, 4, 8, 15, 16, 24, 32, 255] {
